@@ -24,6 +24,8 @@ extern size_t verif_gk;
 extern int verif_rb_fail; extern unsigned verif_rb_calls; extern const void *verif_rb_buf; extern size_t verif_rb_len;
 /* ghost record of the nonce source (set only by the contract that replaces sm2_z256_rand_range / sm9_z256_rand_range) */
 extern uint64_t verif_k_drawn[4]; extern unsigned verif_rand_calls; extern int verif_rand_fail;
+/* ghost record of certificate-extension checks (set only by replaced contracts in x509 proofs) */
+extern unsigned verif_x_bc_calls; extern int verif_x_bc_last_ca; extern int verif_x_bc_last_ret; extern int verif_x_unknown_critical;
 #else
 # define VERIF_LOOP_ASSIGNS(...)
 # define VERIF_LOOP_INVARIANT(...)
